@@ -148,6 +148,34 @@ KROME_WINDOWS = [("NONE", "NONE", "-1", "-1"), ("10", "NONE", "10", "-1"), ("NON
                  ("1d2", "1d4", "1e2", "1e4"), (".GE.20", "<300", "20", "300"), ("N/A", ".LT.1.5d3", "-1", "1.5e3"), ("", "", "-1", "-1"), ("2.73", "3.e4", "2.73", "3.e4")]
 
 
+def random_literals(fmt, rnd, n):
+    """n coefficient triples as a database could print them: random magnitudes over 60 decades and random
+    spellings (repr, fixed, exponent with 1-3 digits, integer-valued) -- thorough tier"""
+    def one(lo, hi, leeds_fmt):
+        v = rnd.choice([-1, 1]) * 10 ** rnd.uniform(lo, hi) * rnd.choice([1.0, 1.0, rnd.uniform(1, 9.99)])
+        if fmt == "leeds":
+            return leeds_fmt % v
+        style = rnd.randrange(5)
+        if style == 0:
+            return repr(v)
+        if style == 1:
+            return "%.3e" % v
+        if style == 2:
+            return "%.2E" % v
+        if style == 3:
+            return repr(float(round(v))) if abs(v) < 1e15 else repr(v)
+        return "%.6g" % v
+
+    out = []
+    for _ in range(n):
+        if fmt == "leeds":
+            # fixed columns of 8 / 9 / 10 characters: alpha unsigned
+            out.append(("%.2E" % abs(float(one(-30, 3, "%.2E"))), one(-3, 1.2, "%.2f"), one(-2, 4.5, "%.1f")))
+        else:
+            out.append((one(-30, 3, "%.2E"), one(-3, 1.2, "%.2f"), one(-2, 4.5, "%.1f")))
+    return out
+
+
 def build_lines(fmt, thorough, seed):
     """list of abstract reactions (with literal strings) for one format"""
     if fmt == "krome":
@@ -164,6 +192,8 @@ def build_lines(fmt, thorough, seed):
         combos = signs if (thorough or code in (3, "NN", 1, "", 100)) else rnd.sample(signs, 9) + [(1, 1, 1), (-1, -1, -1), (0, 0, 0)]
         trip = [(lit(fmt, "a", sa), lit(fmt, "b", sb), lit(fmt, "c", sc)) for sa, sb, sc in combos]
         trip += (LEEDS_EXTREME if fmt == "leeds" else EXTREME)
+        if thorough:
+            trip += random_literals(fmt, rnd, 30)
         for k, (a, b, c) in enumerate(trip):
             idx += 1
             reactants = ["C", "CH"] if marker is None else ["CH", marker]
@@ -465,6 +495,12 @@ def _replay_rate(p, tdir, res, model, run, i, ref, key, name, r, fmt):
                 res["n"] += 0
                 res["viol"].append({"key": key, "what": f"generated rate coefficient differs from the {fmt} law: emitted {got!r}, law {exp!r} at {env}", "replay": {"format": fmt, "target": tdir, "reaction": r, "point": env, "native": got, "law": exp, "line": encoders.ENC[fmt](r)}})
                 return
+        from ..approx import same_up_to_rounding
+        kk_ = run.kout[i]
+        if kk_ is not None and same_up_to_rounding(z3.substitute(R(kk_), (run.kinit[i], z3.RealVal(0))), z3.substitute(R(z3.If(window_pred(*r.get("win", (r["tmin"], r["tmax"]))), R(ref), run.kinit[i])), (run.kinit[i], z3.RealVal(0)))):
+            res["ok"] += 1
+            res["rounded"] = res.get("rounded", 0) + 1
+            return True
         res["unknown"].append((name, "sat with uninterpreted libm, but the native build agrees with the law at the model point and random points (UF abstraction too coarse)"))
     except native.NativeError as e:
         res["unknown"].append((name, f"sat; native replay unavailable: {str(e)[:200]}"))
@@ -482,7 +518,8 @@ def _replay_window(p, tdir, res, r, i, tv, fmt, key, name, win):
         out = nat.eval([1.0] * NEQ, data=env)
         res["replays"] += 1
         got = out["k"].get(i)
-        inside = (F(r["tmin"]) <= 0 or Tval >= float(F(r["tmin"]))) and (F(r["tmax"]) <= 0 or Tval < float(F(r["tmax"])))
+        lo_, hi_ = r.get("win", (r["tmin"], r["tmax"]))  # KROME rows carry the numeric window beside their spelling
+        inside = (F(lo_) <= 0 or Tval >= float(F(lo_))) and (F(hi_) <= 0 or Tval < float(F(hi_)))
         active = got != 0.0
         if active != inside and not (inside and F(r["a"]) == 0):
             res["viol"].append({"key": "window:" + key + f":T[{r['tmin']},{r['tmax']})", "what": f"reaction with window [{r['tmin']},{r['tmax']}) is {'active' if active else 'inactive'} at T={Tval} (k={got!r})", "replay": {"format": fmt, "target": tdir, "reaction": r, "T": Tval, "native_k": got, "line": encoders.ENC[fmt](r)}})
